@@ -117,6 +117,8 @@ type FuncContract struct {
 	CallGhosts []CallGhost
 	GhostParams []string
 	Only        []OnlyClause
+	Callees     []string // whitelist of callee short names (empty = unrestricted)
+	CalleesTags []string
 	Mode       string // "" strict | "permissive" | "trusted"
 	Allocates  bool
 	File       string
@@ -588,7 +590,7 @@ func (ps *parser) parsePrimary() Expr {
 var declKeywords = map[string]bool{"ghost": true, "pure": true, "pred": true, "rec": true, "func": true, "axiom": true, "lemma": true,
 	"package": true, "import": true, "abstract": true, "iface": true, "functype": true, "fieldfunc": true}
 var clauseKeywords = map[string]bool{"requires": true, "ensures": true, "check": true, "modifies": true, "ghost_entry": true,
-	"ghost_exit": true, "loop": true, "call": true, "mode": true, "allocates": true, "tags": true, "ghostparams": true, "only": true}
+	"ghost_exit": true, "loop": true, "call": true, "mode": true, "allocates": true, "tags": true, "ghostparams": true, "only": true, "callees": true}
 
 type rawLine struct {
 	text string
@@ -746,6 +748,16 @@ func parseClause(fc *FuncContract, w, rest string, en rawLine, path string) erro
 	case "tags":
 		tags, _ := parseTags("[" + rest + "]")
 		fc.Tags = append(fc.Tags, tags...)
+	case "callees":
+		// callees [tags] a, b, c : besides effect-free helpers (log, fmt, errors, strings,
+		// strconv, time.Now, pure path functions) the function may call only these
+		tags, body := parseTags(rest)
+		fc.CalleesTags = append(fc.CalleesTags, tags...)
+		for _, p := range strings.Split(body, ",") {
+			if p = strings.TrimSpace(p); p != "" {
+				fc.Callees = append(fc.Callees, p)
+			}
+		}
 	case "only":
 		// only [tags] <local> in a#1, b#2
 		tags, body := parseTags(rest)
